@@ -219,6 +219,27 @@ pub fn c13(cx: &Ctx) -> (Vec<Violation>, Cover) {
             ));
         }
     }
+    // the state lives as long as the system does: a canary (captured by the closure, or kept in a `Local` by the
+    // zero-sized body) that was dropped while the system entity still exists means the state was thrown away
+    for (inst, info) in a.insts.iter().enumerate() {
+        let Some(first_drop) = info.canary_drops.first().copied() else { continue };
+        if info.kind == SysKindTag::Once {
+            // the wrapper of a one-off reactor releases the user's system right after its only run
+            continue;
+        }
+        for o in a.ops.iter() {
+            let Some(q) = o.quiescent else { continue };
+            if q > first_drop && a.sys_alive_at(q, inst) == Some(true) {
+                v.push(Violation::new(
+                    "C13",
+                    format!("C13/state-dropped-while-alive/{:?}", info.flavour),
+                    format!("the system state of instance {inst} was dropped at {first_drop} although the instance still exists at the quiescent point {q}"),
+                    first_drop,
+                ));
+                break;
+            }
+        }
+    }
     for (i, c) in count.iter().enumerate() {
         if *c >= 3 {
             cov.count("instances_with_3plus_runs", 1);
